@@ -14,8 +14,11 @@ def chain_with_counts(r, coin, counts, genesis):
         txs = [coinbase_tx(h, [(50 * 10**8, P2PKH(gen.rb(r, 20)))], extra=gen.rb(r, 2))]
         for j in range(1, n):
             wit = [[gen.rb(r, 8)]] if (j % 5 == 0) else None
-            txs.append(Tx([(gen.rb(r, 32), j & 3, b'\x51' if j % 3 else b'', 0xffffffff)], [(j, P2PKH(gen.rb(r, 20)))], witness=wit))
-        b = Block(prev, txs, time=1300000000 + h, nonce=r.getrandbits(32)); blocks.append(b); prev = b.hash
+            # every 7th transaction uses over-long CompactSize encodings for its counts / script lengths: the txid commits to the bytes as they are on disk
+            wd = {'in': r.choice([3, 5, 9]), 'out': r.choice([3, 5, 9]), ('isl', 0): r.choice([3, 5, 9]), ('osl', 0): r.choice([3, 5, 9])} if j % 7 == 3 else None
+            txs.append(Tx([(gen.rb(r, 32), j & 3, b'\x51' if j % 3 else b'', 0xffffffff)], [(j, P2PKH(gen.rb(r, 20)))], witness=wit, widths=wd))
+        if n == 1 and h % 2 == 1: txs[0] = Tx(txs[0].inputs, txs[0].outputs, widths={'in': 3, ('osl', 0): 5})
+        b = Block(prev, txs, time=1300000000 + h, nonce=r.getrandbits(32), count_width=(r.choice([3, 5, 9]) if h % 3 == 2 else None)); blocks.append(b); prev = b.hash
     return blocks
 
 def corrupt(case, blocks, h, where, r):
@@ -26,24 +29,25 @@ def corrupt(case, blocks, h, where, r):
     elif where == 'prev': pos = 4 + r.randrange(32)
     elif where == 'witness':
         # a witness byte of a segwit tx: not covered by the txid
-        off = 80 + len(cs(len(b.txs))); pos = None
+        off = 80 + len(b.auxpow) + len(b.count_bytes); pos = None
         for t in b.txs:
             if t.witness is not None: pos = off + len(t.disk) - 4 - 1; break      # last witness byte (before locktime)
             off += len(t.disk)
         if pos is None: return None
     else:
         # a byte inside the witness-stripped part of some transaction: version, outpoint, script, value or locktime (not a count/length byte)
-        off = 80 + len(cs(len(b.txs))); k = r.randrange(len(b.txs)); 
+        off = 80 + len(b.auxpow) + len(b.count_bytes); k = r.randrange(len(b.txs))
         for t in b.txs[:k]: off += len(t.disk)
-        t = b.txs[k]; base = off + (2 if t.witness is not None else 0)
+        t = b.txs[k]; base = off + (2 if t.witness is not None else 0); w = t.widths.get
+        lin = len(cs(len(t.inputs), w('in')))
         choice = r.choice(['version', 'outpoint', 'value', 'locktime'])
         if choice == 'version': pos = off + r.randrange(4)
-        elif choice == 'outpoint': pos = base + 4 + 1 + r.randrange(36)
+        elif choice == 'outpoint': pos = base + 4 + lin + r.randrange(36)
         elif choice == 'locktime': pos = off + len(t.disk) - 1 - r.randrange(4)
         else:
-            nin = len(t.inputs); p = base + 4 + 1
-            for (_, _, s, _) in t.inputs: p += 36 + len(cs(len(s))) + len(s) + 4
-            pos = p + 1 + r.randrange(8)
+            p = base + 4 + lin
+            for k2, (_, _, sc, _) in enumerate(t.inputs): p += 36 + len(cs(len(sc), w(('isl', k2)))) + len(sc) + 4
+            pos = p + len(cs(len(t.outputs), w('out'))) + r.randrange(8)
     raw[pos] ^= 1 << r.randrange(8)
     # rewrite the extent holding block h
     (n, off) = case.meta['place'][h]
@@ -56,7 +60,7 @@ def corrupt(case, blocks, h, where, r):
 
 def explore(ck):
     r = ck.rng; quick = ck.tier == 'quick'
-    ck.rule = ('consistent chains with 1..%d transactions per block (every merkle tree shape up to 3 levels wide of 128+: counts %s), block 0 the real genesis block of 7 coins or --start >= 1; '
+    ck.rule = ('consistent chains with 1..%d transactions per block (every merkle tree shape up to 3 levels wide of 128+: counts %s), block 0 the real genesis block of 7 coins or --start >= 1; over-long CompactSize encodings in every 7th transaction and in block transaction counts (the txid commits to the on-disk bytes); '
                'each chain is also run with one bit flipped in the merkle-root field, the prev-hash field, transaction bytes covered by a txid (version/outpoint/value/locktime) or a witness byte '
                '(not covered: must still pass), at every --start offset incl. corruption exactly at the first processed block and outside the range; expected from the generator: fails at the corrupted '
                'height iff it is processed. Non-trivial: passing case with >= 2 txs in a block, or a corrupted case; distinct by (counts, start, corruption).' % ((258 if quick else 1025), COUNTS_Q if quick else COUNTS_T))
@@ -79,7 +83,6 @@ def explore(ck):
             c = copy.copy(base); c.id = '%s_s%d' % (base.id, s); c.start = s; c.meta = dict(base.meta); cases.append(c); expect[c.id] = None
             for where in ['merkle', 'prev', 'txdata', 'witness']:
                 for h in sorted({s, r.randrange(0, nb), max(0, s - 1), nb - 1}):
-                    if h == 0 and genesis and where != 'prev' and where != 'merkle': continue
                     cc = corrupt(c, blocks, h, where, r)
                     if cc is None: continue
                     cc.id = '%s_%s%d' % (c.id, where, h)
